@@ -71,6 +71,9 @@ def _stats(text):
         return 'ERR ' + lib.exc_name(e), None, None
 
 
+_PROG = [0]
+
+
 def run_impl(case):
     """kinds: prog (source through Lua.from_lines + to_lines), toks (source through the lexer only, writer
     constructed on the token list: token sequences no program contains), cli-luamin, cli-build"""
@@ -91,6 +94,13 @@ def run_impl(case):
         lines = split_lines(src)
         if kind == 'prog':
             li = lua.Lua.from_lines(lines, version=8)
+            _PROG[0] += 1
+            if _PROG[0] % 3 == 0:
+                # the Lua object is not fresh: it was echoed and minified under the OPPOSITE keep-all-names setting
+                # (same option names) before; the observed run must not depend on that
+                b''.join(li.to_lines())
+                b''.join(li.to_lines(writer_cls=lua.LuaMinifyTokenWriter,
+                                     writer_args={'keep_all_names': not bool(ka), 'keep_names_from_file': None}))
             chunks = [bytes(c) for c in li.to_lines(writer_cls=lua.LuaMinifyTokenWriter, writer_args=args)]
             obs['cin'] = li.get_token_count()
         elif kind == 'toks':
